@@ -205,3 +205,12 @@ Lemma float_special_order : forall a b, ~ (a = K_Finite /\ b = K_NaN) -> float_c
 Proof. intros [] [] H; try reflexivity. exfalso. apply H. split; reflexivity. Qed.
 Lemma f34_refuted : float_cmp_special K_Finite K_NaN = Some (-2)%Z /\ special_order K_Finite K_NaN = Some 2%Z.
 Proof. split; reflexivity. Qed.
+
+(** with fixes/C09-double-compare-nan.patch the comparison of special values is the order of 3.2.4.1 without exception *)
+Lemma float_special_fixed : forall a b, float_cmp_special_f true a b = special_order a b.
+Proof. intros [] []; reflexivity. Qed.
+(** with fixes/C09-double-sign-dot.patch the witnesses of F33 are rejected and ordinary zeros still accepted *)
+Lemma f33_fixed :
+  float_init_f true [ch_minus; ch_dot] = false /\ float_init_f true [ch_plus; ch_dot] = false /\
+  float_init_f true [ch_minus; ch_dot; ch_0] = true /\ float_init_f true [ch_plus; ch_0; ch_dot] = true /\ float_init_f true [ch_0] = true.
+Proof. vm_compute. repeat split; reflexivity. Qed.
